@@ -1,4 +1,5 @@
 import WebAuthnModel.Model.Prog
+import WebAuthnModel.Model.Jws
 /-
   fido package: AAGUID text form (`AAGUID.String`, `ParseAAGUID` = google/uuid) and
   `UnmarshalMetadataBLOBPayload` (go-jose + x509 are oracles; the composition is the repository's).
@@ -99,9 +100,9 @@ def firstLeaf (raw : Bytes) (pool : Nat) (n : Nat) : Prog (Option Bytes) := do
   | .bytes leaf => pure (some leaf)
   | _ => pure none
 
-/-- `UnmarshalMetadataBLOBPayload`: returns the payload (as the JSON bytes the dependency hands back) -/
-def unmarshalBlob (raw : Bytes) (opts : List Pool) : Prog (Option Bytes) := do
-  let pool := (configPool opts).code
+/-- `UnmarshalMetadataBLOBPayload` for the JWS forms `Model/Jws.lean` does not cover (JSON serialisation, a "jwk" header member):
+    the dependency's own view of headers, chains and claims, as before -/
+def unmarshalBlobOpaque (raw : Bytes) (pool : Nat) : Prog (Option Bytes) := do
   match ← query (.jwsHeaders raw) with
   | .nat n =>
     match ← headerChains raw pool n 0 with
@@ -114,5 +115,42 @@ def unmarshalBlob (raw : Bytes) (opts : List Pool) : Prog (Option Bytes) := do
         | .bytes payload => pure (some payload)
         | _ => pure none
   | _ => pure none
+
+/-- `x509.ParseCertificate` of every x5c entry (`parseCertificateChain` in go-jose's shared.go): `none` = some entry is not a certificate -/
+def parseChain : List Bytes → Prog Bool
+  | [] => pure true
+  | der :: rest => do
+    match ← query (.x509Parse der) with
+    | .cert _ => parseChain rest
+    | _ => pure false
+
+def askBool (q : Ask) : Prog Bool := do
+  match ← query q with
+  | .bool b => pure b
+  | _ => pure false
+
+/-- compact serialisation: `jwt.ParseSigned` (Jws.parse + certificate parsing), `Headers[0].Certificates(VerifyOptions{Roots: pool})`,
+    `Claims(leaf key, &MetadataBLOBPayload{})` = signature check, then the JSON decoding of the payload segment -/
+def unmarshalBlobCompact (raw : Bytes) (c : Jws.Compact) (pool : Nat) : Prog (Option Bytes) := do
+  if !(← parseChain c.x5c) then pure none                 -- ParseSigned fails
+  else
+    match c.x5c with
+    | [] => pure none                                       -- "no x5c header present in message"
+    | leaf :: rest =>
+      if !(← askBool (.x509VerifyPool leaf rest pool)) then pure none
+      else if !c.verifiable then pure none
+      else if !(← askBool (.jwsVerify raw leaf)) then pure none
+      else
+        match ← query (.blobPayload c.payload) with
+        | .bytes payload => pure (some payload)
+        | _ => pure none
+
+/-- `UnmarshalMetadataBLOBPayload`: returns the payload (as the JSON bytes the dependency hands back) -/
+def unmarshalBlob (raw : Bytes) (opts : List Pool) : Prog (Option Bytes) :=
+  let pool := (configPool opts).code
+  match Jws.parse raw with
+  | .error => pure none
+  | .unmodelled => unmarshalBlobOpaque raw pool
+  | .ok c => unmarshalBlobCompact raw c pool
 
 end WebAuthn.Fido
